@@ -465,7 +465,9 @@ impl<'input> Tokenizer<'input> {
                     continue;
                 } else if c == 'r' {
                     self.bump();
-                    if let Some((idx, '#')) = self.lookahead {
+                    // `idx` is the position of the `r`, which is what `regex_literal`
+                    // expects; raw strings without hashes (`r"..."`) are raw too.
+                    if let Some((_, '#' | '"')) = self.lookahead {
                         self.regex_literal(idx)?;
                     }
                     continue;
